@@ -7,6 +7,7 @@ of `CSVLookupTableMixin.pre()` against the Lean model (Drivers/C20.lean); indepe
 scipy `splev` / `bisplev` (evaluation, derivatives), an independent QP / least-squares reference
 (fit), and the property re-stated in plain Python (inverse lookup, cache reuse).
 """
+import contextlib
 import logging
 import math
 import os
@@ -576,12 +577,65 @@ def stream_fit(c, N):
     run_fit_cases(c, [gen_fit_case(c.rng) for _ in range(N)])
 
 
+@contextlib.contextmanager
+def _record_fit_solver(rec):
+    """pass-through recorder of the bounds `BSpline1D.fit` hands to its solver (the module-level `nlpsol`)"""
+    import rtctools.data.interpolation.bspline1d as mod
+
+    orig = mod.nlpsol
+
+    def wrapped(*a, **kw):
+        solver = orig(*a, **kw)
+
+        class _S:
+            def __call__(self_, **ckw):
+                rec["lbg"] = np.array(ckw.get("lbg"), dtype=float).ravel()
+                rec["ubg"] = np.array(ckw.get("ubg"), dtype=float).ravel()
+                return solver(**ckw)
+
+            def stats(self_):
+                return solver.stats()
+
+        return _S()
+
+    mod.nlpsol = wrapped
+    try:
+        yield
+    finally:
+        mod.nlpsol = orig
+
+
+def check_fit_setup(c, case, t, rec, o):
+    """the knot vector returned by fit() and the row bounds handed to the solver vs the Lean model's `fitKnots` / `fitBounds`"""
+    if o in ("bad-op", "bad-json", None) or not isinstance(o, dict):
+        c.disagree("fit set-up: model driver rejected the case", case, o, None)
+        return
+    c.hit("fit/setup-compared")
+    mt = [float(unfr(v)) for v in o["t"]]
+    if len(mt) != len(t) or not np.allclose(mt, t, rtol=0, atol=1e-12):
+        c.disagree("fit knot vector", case, mt, list(t))
+    if "lbg" not in rec:
+        return
+    ntest = case["num_test_points"]
+    ndc = len(t) - 1
+    lbg, ubg = rec["lbg"], rec["ubg"]
+
+    def ev(v):
+        return float("inf") if v == "inf" else float("-inf") if v == "-inf" else float(unfr(v))
+
+    want_l = [ev(o["dcMin"])] * ndc + [ev(o["ssMin"])] * ntest
+    want_u = [ev(o["dcMax"])] * ndc + [ev(o["ssMax"])] * ntest
+    if len(lbg) != len(want_l) or len(ubg) != len(want_u) or not np.array_equal(lbg, want_l) or not np.array_equal(ubg, want_u):
+        c.disagree("fit constraint-row bounds", case, {"lbg": want_l[:3] + want_l[-2:], "ubg": want_u[:3] + want_u[-2:]},
+                   {"lbg": list(lbg[:3]) + list(lbg[-2:]), "ubg": list(ubg[:3]) + list(ubg[-2:]), "n": len(lbg)})
+
+
 def run_fit_cases(c, case_list):
     from scipy.interpolate import splev
 
     from rtctools.data.interpolation.bspline1d import BSpline1D
 
-    cases, lines = [], []
+    cases, lines, setups, setup_lines = [], [], [], []
     for case in case_list:
         x, y = np.array(case["x"], dtype=float), np.array(case["y"], dtype=float)
         k, mono, curv, ntest = case["k"], case["monotonicity"], case["curvature"], case["num_test_points"]
@@ -589,7 +643,8 @@ def run_fit_cases(c, case_list):
         kw = dict(k=k, monotonicity=mono, curvature=curv, num_test_points=ntest)
         if interior is not None:
             kw["interior_pts"] = np.array(interior, dtype=float)
-        with quiet_fd():
+        rec = {}
+        with quiet_fd(), _record_fit_solver(rec):
             r = call(BSpline1D.fit, x, y, ipopt_options={"print_level": 0, "sb": "yes"}, **kw)
         c.count(("fit", k, int(np.sign(mono)), curv, len(x), interior is None, bool(case.get("noisy"))))
         c.hit("fit/k%d mono%+d curv%+d" % (k, np.sign(mono), curv))
@@ -605,9 +660,17 @@ def run_fit_cases(c, case_list):
         w = np.array(w, dtype=float)
         test_pts = np.linspace(x[0], x[-1], ntest)
         cases.append((case, (t, w, kk, test_pts)))
+        # set-up handed to the solver (knot vector; bounds of the coefficient-difference and curvature rows) vs the model
+        setups.append((case, t, rec))
+        setup_lines.append(dict(op="fitsetup", x=frs(x), k=k, delta=fr(1e-4), eps=fr(1e-7), mono=int(np.sign(mono)),
+                                curv=int(np.sign(curv)), interior=(frs(interior) if interior is not None else None)))
         lines.append(dict(op="b1", t=frs(t), w=frs(w), k=kk, q=frs(x)))
         lines.append(dict(op="d1", t=frs(t), w=frs(w), k=kk, d=1, q=frs(test_pts)))
         lines.append(dict(op="d1", t=frs(t), w=frs(w), k=kk, d=2, q=frs(test_pts)))
+    souts = model(c, setup_lines) if setup_lines else []
+    if souts is not None:
+        for (case, t, rec), o in zip(setups, souts):
+            check_fit_setup(c, case, t, rec, o)
     outs = model(c, lines)
     pos = 0
     for case, res in cases:
@@ -1363,9 +1426,9 @@ def run(c):
         "least-squares quality and constraint satisfaction between test points are numerical: checked per "
         "instance against an independent QP / lstsq reference, not proved",
     ]
-    from .translate_c20 import gen_bspline, gen_bspline2d, gen_fit_cache, gen_reverse_domain
+    from .translate_c20 import gen_bspline, gen_bspline2d, gen_fit_cache, gen_fit_setup, gen_reverse_domain
 
-    c.prove(extra=gen_bspline(c) + gen_reverse_domain(c) + gen_bspline2d(c) + gen_fit_cache(c))  # + BSpline.basis / BSpline1D.__call__ translated from the source on every run
+    c.prove(extra=gen_bspline(c) + gen_reverse_domain(c) + gen_bspline2d(c) + gen_fit_cache(c) + gen_fit_setup(c))  # + BSpline.basis / BSpline1D.__call__ translated from the source on every run
     nexh = stream_exhaustive(c, c.big)
     stream_eval1d(c, c.n(40, 1200))
     stream_eval2d(c, c.n(16, 400))
